@@ -61,6 +61,12 @@ type bulkGobCodec struct {
 
 	wCrc, rCrc uint32
 	closed     bool
+
+	// rErr is set once the incoming stream can no longer be trusted: a checksum
+	// mismatch (the gob decoder may have absorbed damaged type definitions) or a
+	// message that was not consumed to its end. Every later read fails with it, so
+	// that net/rpc drops the connection instead of decoding what follows.
+	rErr error
 }
 
 func newBulkGobCodec(conn io.ReadWriteCloser) *bulkGobCodec {
@@ -98,6 +104,9 @@ func (c *bulkGobCodec) WriteRequest(r *rpc.Request, body interface{}) (err error
 }
 
 func (c *bulkGobCodec) ReadResponseHeader(r *rpc.Response) error {
+	if c.rErr != nil {
+		return c.rErr
+	}
 	// 1. gob-encoded response header
 	c.rCrc = 0
 	return c.dec.Decode(r)
@@ -108,6 +117,9 @@ func (c *bulkGobCodec) ReadResponseBody(body interface{}) (err error) {
 }
 
 func (c *bulkGobCodec) ReadRequestHeader(r *rpc.Request) error {
+	if c.rErr != nil {
+		return c.rErr
+	}
 	// 1. gob-encoded request header
 	c.rCrc = 0
 	return c.dec.Decode(r)
@@ -176,6 +188,9 @@ func (c *bulkGobCodec) writeBulk(reqOrResp, body interface{}) (err error) {
 }
 
 func (c *bulkGobCodec) readBulkBody(body interface{}) (err error) {
+	if c.rErr != nil {
+		return c.rErr
+	}
 	var bulkData []byte
 	var exclusive bool
 	bb, isBulk := body.(BulkData)
@@ -200,11 +215,14 @@ func (c *bulkGobCodec) readBulkBody(body interface{}) (err error) {
 		return
 	}
 	if wantCrc != haveCrc {
-		return errChecksumMismatch
+		c.rErr = errChecksumMismatch
+		return c.rErr
 	}
 	if bulkLen > 0 {
 		if !isBulk {
-			return fmt.Errorf("type %T doesn't implement BulkData", body)
+			// The bulk data stays unread: the stream is out of step from here on.
+			c.rErr = fmt.Errorf("type %T doesn't implement BulkData", body)
+			return c.rErr
 		}
 		if cap(bulkData) >= int(bulkLen) {
 			bulkData = bulkData[:bulkLen]
@@ -228,7 +246,8 @@ func (c *bulkGobCodec) readBulkBody(body interface{}) (err error) {
 		// Allow zero to mean "don't check this crc", so caller can choose not
 		// to compute a crc here.
 		if wantCrc != 0 && wantCrc != haveCrc {
-			return errChecksumMismatch
+			c.rErr = errChecksumMismatch
+			return c.rErr
 		}
 		bb.Set(bulkData, exclusive)
 	}
